@@ -56,7 +56,8 @@ fn build(chain: &[Link], bottom: Bottom, fail: Leaf, wrap_caught: bool) -> (Vec<
     build_with_history(chain, bottom, fail, wrap_caught, None)
 }
 
-const HISTORIES: usize = 5;
+const HISTORIES: usize = 6;
+const WRAP_FINALLY: usize = 100;
 
 /// an exception that was raised and completely handled before the failing statement runs
 fn history(kind: usize) -> Vec<Stmt> {
@@ -66,6 +67,11 @@ fn history(kind: usize) -> Vec<Stmt> {
         1 => vec![st(StmtKind::Try(vec![expr_stmt(call(var("thr1"), vec![]))], catch(62), None))],
         2 => vec![st(StmtKind::Try(vec![expr_stmt(index(Expr::VecLit(vec![]), num(0.0)))], catch(63), None))],
         3 => vec![st(StmtKind::Try(vec![st(StmtKind::Try(vec![st(StmtKind::Throw(s("handled after finally")))], None, Some(vec![pad(64)])))], catch(65), None))],
+        5 => vec![
+            // another fiber handled an exception in a callee-thrown form and ran to its end
+            var_stmt("hg", invoke(var("Fiber"), "new", vec![lambda_block(&[], vec![st(StmtKind::Try(vec![expr_stmt(call(var("thr1"), vec![]))], catch(69), None))])])),
+            expr_stmt(invoke(var("hg"), "call", vec![])),
+        ],
         _ => vec![st(StmtKind::For("h".into(), Expr::VecLit(vec![num(1.0), num(2.0)]), vec![st(StmtKind::Try(vec![st(StmtKind::If(bin(BinOp::Eq, var("h"), num(1.0)), vec![st(StmtKind::Throw(s("handled in loop")))], None)), pad(66)], catch(67), None))]))],
     }
 }
@@ -75,8 +81,23 @@ fn history(kind: usize) -> Vec<Stmt> {
 fn build_with_history(chain: &[Link], bottom: Bottom, fail: Leaf, wrap_caught: bool, hist: Option<(usize, usize)>) -> (Vec<Stmt>, BTreeMap<String, ModuleSource>) {
     let hist_at = |pos: usize| -> Vec<Stmt> {
         match hist {
-            Some((kind, p)) if p == pos => history(kind),
+            Some((kind, p)) if p == pos && kind < WRAP_FINALLY => history(kind),
             _ => vec![],
+        }
+    };
+    // kinds >= WRAP_FINALLY: the action at that position runs inside try { .. } finally { .. }
+    // (WRAP_FINALLY + 1: inside two nested ones), so the uncaught error passes through finally blocks
+    let wrap_at = |pos: usize, action: Vec<Stmt>| -> Vec<Stmt> {
+        match hist {
+            Some((kind, p)) if p == pos && kind >= WRAP_FINALLY => {
+                let inner = st(StmtKind::Try(action, None, Some(vec![pad(80)])));
+                if kind == WRAP_FINALLY {
+                    vec![inner]
+                } else {
+                    vec![st(StmtKind::Try(vec![pad(81), inner], None, Some(vec![pad(82), print_stmt(s("outer finally"))])))]
+                }
+            }
+            _ => action,
         }
     };
     let mut modules = BTreeMap::new();
@@ -84,11 +105,11 @@ fn build_with_history(chain: &[Link], bottom: Bottom, fail: Leaf, wrap_caught: b
     defs.extend(throwers());
     // the innermost action
     let mut action: Vec<Stmt> = match bottom {
-        Bottom::Here => leaf_stmts(fail),
+        Bottom::Here => wrap_at(chain.len() + 1, leaf_stmts(fail)),
         Bottom::ModuleFunction => {
             let mut body = vec![pad(70)];
             body.extend(hist_at(chain.len() + 1));
-            body.extend(leaf_stmts(fail));
+            body.extend(wrap_at(chain.len() + 1, leaf_stmts(fail)));
             let mut m = vec![pad(71), user_err()];
             m.extend(throwers());
             m.push(fn_stmt(func("mf", &[], body)));
@@ -100,7 +121,7 @@ fn build_with_history(chain: &[Link], bottom: Bottom, fail: Leaf, wrap_caught: b
             let mut m = vec![pad(72), pad(73), user_err()];
             m.extend(throwers());
             m.extend(hist_at(chain.len() + 1));
-            m.extend(leaf_stmts(fail));
+            m.extend(wrap_at(chain.len() + 1, leaf_stmts(fail)));
             modules.insert("mod_body".to_string(), ModuleSource { program: Some(m), compile_error: false });
             vec![st(StmtKind::Import("mod_body".into(), None))]
         }
@@ -109,7 +130,7 @@ fn build_with_history(chain: &[Link], bottom: Bottom, fail: Leaf, wrap_caught: b
     for (k, link) in chain.iter().enumerate().rev() {
         let mut body = vec![pad(k * 10 + 1)];
         body.extend(hist_at(k + 1));
-        body.extend(action);
+        body.extend(wrap_at(k + 1, action));
         body.push(pad(k * 10 + 2));
         let (def, callexpr): (Vec<Stmt>, Expr) = match link {
             Link::Function => {
@@ -155,6 +176,7 @@ fn build_with_history(chain: &[Link], bottom: Bottom, fail: Leaf, wrap_caught: b
     let mut main = defs;
     main.push(pad(100));
     main.extend(hist_at(0));
+    let action = wrap_at(0, action);
     if wrap_caught {
         main.push(st(StmtKind::Try(action, Some(("e".into(), vec![print_stmt(call(var("type"), vec![var("e")]))])), None)));
     } else {
@@ -196,6 +218,18 @@ fn after_handled_cases(thorough: bool) -> Vec<Case> {
                     continue;
                 }
                 let positions = chain.len() + if bottom == Bottom::Here { 1 } else { 2 };
+                // (for Bottom::Here the failing statement sits in the innermost link's body: position
+                // chain.len()+1 wraps the statement itself, position chain.len() the same body's call - the
+                // wrapper positions run to chain.len()+1 for every bottom)
+                for pos in 0..=chain.len() + 1 {
+                    for kind in [WRAP_FINALLY, WRAP_FINALLY + 1] {
+                        let (prog, modules) = build_with_history(&chain, bottom, fail, false, Some((kind, pos)));
+                        let mut c = Case::new("R_uncaught_trace_through_finally", prog);
+                        c.modules = modules;
+                        c.opts = CmpOpts { trace: true, kind: true };
+                        out.push(c);
+                    }
+                }
                 for pos in 0..positions {
                     for kind in 0..HISTORIES {
                         let (prog, modules) = build_with_history(&chain, bottom, fail, false, Some((kind, pos)));
@@ -428,6 +462,10 @@ fn compile_error_lines(ctx: &Ctx, report: &mut Report) -> usize {
     n
 }
 
+pub fn cases_for_c01(thorough: bool) -> Vec<Case> {
+    runtime_cases(false).into_iter().enumerate().filter(|(i, _)| thorough || i % 5 == 0).map(|(_, c)| c).collect()
+}
+
 pub fn run(ctx: &Ctx) -> Report {
     let mut report = Report::new();
     let active = active_findings(ctx, &mut report);
@@ -437,7 +475,7 @@ pub fn run(ctx: &Ctx) -> Report {
     mcheck::fill_report(
         &mut report,
         &stats,
-        "R: every call chain of depth 0-3/4 over link kinds {function, method, static method, lambda, constructor, map callback, reduce callback, fiber body} with the failing statement (12 kinds: throws of 4 value kinds, 6 failing built-ins, throwing callees) at the bottom, in place, inside a module function or as a module body; one statement per line with padding so every line differs. Uncaught variant: class, text (where the model defines it), error kind and the full trace (one entry per active call, innermost first; library frames by name only) must equal M-eval's; caught variant: the handler sees the same class. The same with an earlier, completely handled exception (5 shapes: thrown and caught in place, thrown by a callee, raised by a built-in, caught after passing a finally block, caught in a loop) placed in each active frame of every chain up to depth 2/3 before the failing statement. Plus caught==uncaught on the implementation for 26 failing statements including host natives of every ErrorKind, and compile-error lines for a stray token before every statement. non-trivial = a trace of at least two entries, or output.",
+        "R: every call chain of depth 0-3/4 over link kinds {function, method, static method, lambda, constructor, map callback, reduce callback, fiber body} with the failing statement (12 kinds: throws of 4 value kinds, 6 failing built-ins, throwing callees) at the bottom, in place, inside a module function or as a module body; one statement per line with padding so every line differs. Uncaught variant: class, text (where the model defines it), error kind and the full trace (one entry per active call, innermost first; library frames by name only) must equal M-eval's; caught variant: the handler sees the same class. The same with an earlier, completely handled exception (6 shapes: thrown and caught in place, thrown by a callee, raised by a built-in, caught after passing a finally block, caught in a loop, handled in another fiber that ran to its end) placed in each active frame of every chain up to depth 2/3 before the failing statement. The same with the call or failing statement at each position wrapped in one or two nested try/finally statements, so that the uncaught error passes through finally blocks (the report lists the calls still active when it is made, each with the line of the statement it was executing when the error was raised). Plus caught==uncaught on the implementation for 26 failing statements including host natives of every ErrorKind, and compile-error lines for a stray token before every statement. non-trivial = a trace of at least two entries, or output.",
         json!({"chain_depth": if thorough { 4 } else { 3 }, "link_kinds": LINKS.len(), "failing_statements": FAILS.len()}),
     );
     let (n_ceq, _bad) = caught_equals_uncaught(ctx, &mut report);
@@ -446,7 +484,7 @@ pub fn run(ctx: &Ctx) -> Report {
     report.cov("compile_error_line_cases", json!(n_lines));
     report.assumptions = vec![
         "frames of the library written in the language itself are matched by function name and position only".into(),
-        "uncaught exceptions that pass through finally blocks are outside C17's alphabet".into(),
+        "a call that an exception has left by the time it is reported (it passed through a finally block of a caller) is not listed".into(),
     ];
     record_known(&mut report, &active, &stats.attributed);
     report.violations.extend(stats.violations);
